@@ -28,7 +28,7 @@ async def run_case(case):
     steps = []
     result = {"outcome": None, "left": False}
     st = {"tf": None, "owner": None, "fctx": None, "handles": [], "cmd": None, "cmd_ev": anyio.Event(),
-          "cmd_done": anyio.Event(), "spawn_err": None}
+          "cmd_done": anyio.Event(), "spawn_err": None, "cancel_req": set()}
     done = anyio.Event()
 
     def handler(exc):
@@ -36,7 +36,7 @@ async def run_case(case):
         d.obs("Handler", k[0] if isinstance(k, tuple) else k, k[1] if isinstance(k, tuple) else -1)
         return verdict
 
-    def make_task(k, segs, ending):
+    def make_task(k, segs, ending, oncancel=None):
         async def task():
             ctx = current_context()
             if st["fctx"] is None:
@@ -48,6 +48,9 @@ async def run_case(case):
                     d.obs("Seg", k)
             except anyio.get_cancelled_exc_class():
                 d.obs("CancelSeen", k)
+                if oncancel is not None and k in st["cancel_req"]:
+                    # something (a finally block, say) raises while the task unwinds from cancel()
+                    raise TaskError((k, oncancel))
                 raise
             if ending[0] == "ERaise":
                 raise TaskError((k, ending[1]))
@@ -57,9 +60,9 @@ async def run_case(case):
         await handle.wait_finished()
         d.obs("Ended", k)
 
-    async def do_spawn(tg, k, segs, ending, how):
+    async def do_spawn(tg, k, segs, ending, how, oncancel=None):
         tf = st["tf"]
-        fn = make_task(k, segs, ending)
+        fn = make_task(k, segs, ending, oncancel)
         try:
             if how == "soon":
                 h = tf.start_task_soon(fn, f"t{k}")
@@ -134,8 +137,8 @@ async def run_case(case):
                 break
             kind = g[0]
             if kind == "Spawn":
-                _, segs, ending, how, where = g
-                st["cmd"] = (nspawn, segs, ending, how)
+                _, segs, ending, how, where = g[:5]
+                st["cmd"] = (nspawn, segs, ending, how, g[5] if len(g) > 5 else None)
                 nspawn += 1
                 st["cmd_done"] = anyio.Event()
                 if done.is_set() or where == "direct":
@@ -149,6 +152,7 @@ async def run_case(case):
                 d.open(f"T{g[1]}")
             elif kind == "Cancel":
                 if g[1] < len(st["handles"]):
+                    st["cancel_req"].add(g[1])
                     st["handles"][g[1]].cancel()
             elif kind == "Teardown":
                 if "B" in d.waiting:
